@@ -131,7 +131,12 @@ impl Lexicon {
             let (result, nin, nout) = rdr.read_field(bytes, &mut output);
             let record_end = match result {
                 ReadFieldResult::InputEmpty => {
-                    features_len += nin + 1;
+                    if field_cnt == 0 && nout == 0 {
+                        // Only blank lines (or the LF of a final CRLF) remained.
+                        bytes = &bytes[nin..];
+                        continue;
+                    }
+                    features_len += nin;
                     record_end_pos += nin;
                     true
                 }
@@ -175,7 +180,16 @@ impl Lexicon {
                     );
                     return Err(VibratoError::invalid_format(name, msg));
                 }
-                let feature = std::str::from_utf8(&features_bytes[..features_len - 1])?;
+                // The span of the features ends with the record terminator (LF, CR, or the CR
+                // of CRLF) unless the input ended first.
+                let mut feature = &features_bytes[..features_len];
+                if let Some(rest) = feature.strip_suffix(b"\n") {
+                    feature = rest;
+                }
+                if let Some(rest) = feature.strip_suffix(b"\r") {
+                    feature = rest;
+                }
+                let feature = std::str::from_utf8(feature)?;
                 if surface.is_empty() {
                     eprintln!(
                         "Skipped an empty surface, {:?}",
